@@ -528,10 +528,10 @@ def execute_diff(sc) -> Outcome:
     for variant in VARIANTS[1:]:
         for i, (a, b) in enumerate(zip(ref["outs"], recs[variant]["outs"])):
             sa, sb = summary(a), summary(b)
-            if short and ((sa[0] == "exc" and sa[1].endswith("Timeout")) or (sb[0] == "exc" and sb[1].endswith("Timeout"))) and (sa[0], sb[0]) != ("exc", "exc"):
-                break  # a 0.06 s timeout may also expire in a step the fault did not touch (busy machine): what follows is not comparable
             if short and sa[0] == sb[0] == "exc" and sa[1].endswith("Timeout") and sb[1].endswith("Timeout"):
                 continue  # which of the 0.06 s limits expired first is a matter of timing
+            if short and ((sa[0] == "exc" and sa[1].endswith("Timeout")) or (sb[0] == "exc" and sb[1].endswith("Timeout"))):
+                break  # a 0.06 s timeout may also expire in a step the fault did not touch (busy machine): what follows is not comparable
             if sa != sb:
                 da = sa[1] if sa[0] == "exc" else f"{sa[1]}/{len(sa[3])}B"
                 db = sb[1] if sb[0] == "exc" else f"{sb[1]}/{len(sb[3])}B"
